@@ -66,6 +66,8 @@ class GenRule(TermRule):
             k = f"self.{node.attr}"
             if k in self.field_consts:
                 return self.field_consts[k]
+            if ("self", node.attr) in st.heap:
+                return None  # written earlier on this path: the interpreter reads the stored value
             return tv(k)
         if base.kind == "unk" and base.sym and not base.sym.startswith(("list(", "tuple(")):
             if base.sym.startswith("g:") or base.sym.startswith("p:") or base.sym.startswith("self.") or "(" in base.sym:
